@@ -170,7 +170,7 @@ func (c PQCase) build(i int) (parquet.Row, []pqv) {
 				rep = 1
 			}
 			row = append(row, pval(s, rep, 1, 1))
-			tags.l = append(tags.l, pqStr(s+"?"))
+			tags.l = append(tags.l, pqStr(s))
 		}
 		nums := pqv{k: "annotated_list"}
 		if len(r.Nums) == 0 {
